@@ -103,7 +103,19 @@ def _zero_run(C, V, pos):
     return k
 
 
+def _canonical_view(V):
+    """the same view with its length and bit terms simplified under the facts of the current path (slice clamping resolved)"""
+    if not sym.have_ctx() or isinstance(V.n, int) and not sym.is_sym(V.bit(0) if V.n else False):
+        return V
+    probe = z3.Int('probe!cv')
+    tmpl = sym.ctx_simplify(sym._b(V.bit(SInt(probe))))
+    n = sym.ctx_simplify_int(V.n)
+    return BA(n, lambda i: sym.mk_bool(z3.substitute(tmpl, (probe, sym._int_t(i)))))
+
+
 def readue_core(C, V, pos):
+    V = _canonical_view(V)
+    pos = sym.ctx_simplify_int(pos) if sym.have_ctx() else pos
     k = _zero_run(C, V, pos)
     if sym.truth(sym.eq(pos + k, V.n)):
         C.throw('ReadError')
